@@ -47,7 +47,7 @@ def rand_two(rng, m1, m2, kmax=3):
 
 
 def w_slim(ctx, rng, idx):
-    d = int(rng.integers(2, 5))
+    d = int(rng.integers(2, 7))
     if rng.random() < 0.5:
         ss = [int(rng.integers(1, 4))] * d
     else:
@@ -59,6 +59,19 @@ def w_slim(ctx, rng, idx):
     two = [rand_two(rng, ss[i], ss[i + 1]) for i in range(d - 1)]
     if cyc:
         two.append(rand_two(rng, ss[-1], ss[0]))
+    if len(set(ss)) == 1 and rng.random() < 0.6:
+        # piecewise homogeneous chains: a homogeneous bulk (the same reaction lists - one list object, or equal copies - on
+        # neighbouring cells and bonds) with one or two defect cells / bonds at arbitrary positions, incl. the first and last
+        m0 = ss[0]
+        s0, t0 = rand_single(rng, m0), rand_two(rng, m0, m0)
+        clone = (lambda L: [list(r) for r in L]) if rng.random() < 0.5 else (lambda L: L)
+        single = [clone(s0) for _ in range(d)]
+        two = [clone(t0) for _ in range(len(two))]
+        for _ in range(int(rng.integers(0, 3))):
+            if rng.random() < 0.5:
+                single[int(rng.integers(0, d))] = rand_single(rng, m0)
+            else:
+                two[int(rng.integers(0, len(two)))] = rand_two(rng, m0, m0)
     thr = [0, 1e-12][int(rng.integers(0, 2))]
     ctx.describe({'op': 'slim_mme', 'state_space': ss, 'cyclic': cyc, 'threshold': thr, 'single': single, 'two': two})
     call('slim.slim_mme', slim.slim_mme, ss, single, two, prop=P, tags=['cyclic' if cyc else 'open'], threshold=thr)
